@@ -122,7 +122,9 @@ func (g *schemaGenerator) generateReferencedType(t *schemas.Type) (codegen.Type,
 			return nil, oerr
 		}
 
-		sg = newSchemaGenerator(g.Generator, schema, fileName, output)
+		// Use the resolved path: references inside the referenced document are relative to it, not to
+		// the working directory.
+		sg = newSchemaGenerator(g.Generator, schema, qualified, output)
 	}
 
 	var def *schemas.Type
